@@ -82,14 +82,57 @@ func (l lockSet) String() string {
 }
 
 type accessWalker struct {
-	p    *pkgFiles
-	fn   string
-	env  map[string]string
-	rows *[]accessRow
+	p        *pkgFiles
+	fn       string
+	env      map[string]string
+	rows     *[]accessRow
+	blocks   *[]blockRow
+	inSelect bool
+}
+
+// blockRow: an operation that can block (or a call into the package, which may), with the locks held at that point.
+type blockRow struct{ fn, op, locks string }
+
+func (w *accessWalker) blocking(held lockSet, op string) {
+	if w.blocks != nil {
+		*w.blocks = append(*w.blocks, blockRow{w.fn, op, held.String()})
+	}
+}
+
+// blockingCalls: methods whose call may block for an unbounded time
+var blockingCalls = map[string]bool{"RecvMsg": true, "SendMsg": true, "NodeStream": true, "DialContext": true, "Sleep": true, "Wait": true}
+
+// callsIn records the blocking calls and the calls to methods of the package's own structs inside an expression
+func (w *accessWalker) callsIn(held lockSet, e ast.Node) {
+	if w.blocks == nil || e == nil {
+		return
+	}
+	ast.Inspect(e, func(n ast.Node) bool {
+		switch c := n.(type) {
+		case *ast.FuncLit:
+			return false
+		case *ast.UnaryExpr:
+			if c.Op == token.ARROW {
+				w.blocking(held, "recv("+w.p.src(c.X)+")")
+			}
+		case *ast.CallExpr:
+			if sel, ok := c.Fun.(*ast.SelectorExpr); ok {
+				if blockingCalls[sel.Sel.Name] {
+					w.blocking(held, "call("+sel.Sel.Name+")")
+				} else if owner := structOfExpr(sel.X, w.env); owner == "channel" || owner == "RawNode" || owner == "RawManager" || owner == "Correctable" {
+					w.blocking(held, "method("+owner+"."+sel.Sel.Name+")")
+				}
+			}
+		}
+		return true
+	})
 }
 
 // lockName renders the mutex expression: field name, qualified by the owning struct for `mu`.
 func (w *accessWalker) lockName(e ast.Expr, mode string) string {
+	if id, isIdent := e.(*ast.Ident); isIdent {
+		return id.Name // a local mutex (the handler mutex of NodeStream)
+	}
 	sel, ok := e.(*ast.SelectorExpr)
 	if !ok {
 		return ""
@@ -142,10 +185,12 @@ func (w *accessWalker) stmt(s ast.Stmt, held lockSet) lockSet {
 				switch sel.Sel.Name {
 				case "Lock":
 					w.exprs(held, false, c.Args...)
+					w.blocking(held, "lock("+w.lockName(sel.X, "W")+")")
 					h := held.copy()
 					h[w.lockName(sel.X, "W")] = true
 					return h
 				case "RLock":
+					w.blocking(held, "lock("+w.lockName(sel.X, "R")+")")
 					h := held.copy()
 					h[w.lockName(sel.X, "R")] = true
 					return h
@@ -160,6 +205,7 @@ func (w *accessWalker) stmt(s ast.Stmt, held lockSet) lockSet {
 				}
 			}
 		}
+		w.callsIn(held, x.X)
 		w.exprs(held, false, x.X)
 	case *ast.DeferStmt:
 		if sel, ok := x.Call.Fun.(*ast.SelectorExpr); ok && (sel.Sel.Name == "Unlock" || sel.Sel.Name == "RUnlock") {
@@ -172,23 +218,30 @@ func (w *accessWalker) stmt(s ast.Stmt, held lockSet) lockSet {
 		w.exprs(held, false, x.Call)
 	case *ast.GoStmt:
 		if fl, ok := x.Call.Fun.(*ast.FuncLit); ok {
-			sub := &accessWalker{p: w.p, fn: w.fn + ".go", env: w.env, rows: w.rows}
+			sub := &accessWalker{p: w.p, fn: w.fn + ".go", env: w.env, rows: w.rows, blocks: w.blocks}
 			sub.block(fl.Body, lockSet{})
 			w.exprs(held, false, x.Call.Args...)
 			return held
 		}
 		w.exprs(held, false, x.Call)
 	case *ast.AssignStmt:
+		for _, r := range x.Rhs {
+			w.callsIn(held, r)
+		}
 		w.exprs(held, false, x.Rhs...)
 		w.exprs(held, true, x.Lhs...)
 	case *ast.IncDecStmt:
 		w.exprs(held, true, x.X)
 	case *ast.ReturnStmt:
+		for _, r := range x.Results {
+			w.callsIn(held, r)
+		}
 		w.exprs(held, false, x.Results...)
 	case *ast.IfStmt:
 		if x.Init != nil {
 			held = w.stmt(x.Init, held)
 		}
+		w.callsIn(held, x.Cond)
 		w.exprs(held, false, x.Cond)
 		after := w.block(x.Body, held.copy())
 		var afterElse lockSet = held
@@ -258,17 +311,37 @@ func (w *accessWalker) stmt(s ast.Stmt, held lockSet) lockSet {
 			}
 		}
 	case *ast.SelectStmt:
+		{
+			hasDefault := false
+			var comms []string
+			for _, c := range x.Body.List {
+				cc := c.(*ast.CommClause)
+				if cc.Comm == nil {
+					hasDefault = true
+				} else {
+					comms = append(comms, w.p.src(cc.Comm))
+				}
+			}
+			if !hasDefault {
+				w.blocking(held, "select("+strings.Join(comms, " | ")+")")
+			}
+		}
 		for _, c := range x.Body.List {
 			cc := c.(*ast.CommClause)
 			h := held.copy()
 			if cc.Comm != nil {
+				w.inSelect = true
 				h = w.stmt(cc.Comm, h)
+				w.inSelect = false
 			}
 			for _, st := range cc.Body {
 				h = w.stmt(st, h)
 			}
 		}
 	case *ast.SendStmt:
+		if !w.inSelect {
+			w.blocking(held, "send("+w.p.src(x.Chan)+")")
+		}
 		w.exprs(held, false, x.Chan, x.Value)
 	case *ast.DeclStmt:
 		if gd, ok := x.Decl.(*ast.GenDecl); ok {
@@ -342,6 +415,7 @@ func (w *accessWalker) expr(held lockSet, write bool, e ast.Expr) {
 func accessFacts() {
 	p := loadDir("")
 	var rows []accessRow
+	var blocks []blockRow
 	var files []string
 	for f := range p.files {
 		files = append(files, f)
@@ -384,7 +458,7 @@ func accessFacts() {
 				}
 				return true
 			})
-			w := &accessWalker{p: p, fn: name, env: env, rows: &rows}
+			w := &accessWalker{p: p, fn: name, env: env, rows: &rows, blocks: &blocks}
 			w.block(fd.Body, lockSet{})
 		}
 	}
@@ -408,6 +482,40 @@ func accessFacts() {
 	sort.Strings(out)
 	o.exprs = append(o.exprs, "structure AccessRow where\n  owner : String\n  field : String\n  fn : String\n  write : Bool\n  locks : List String\n  deriving Repr, DecidableEq\n\n"+
 		"def accessTable : List AccessRow := [\n  "+strings.Join(out, ",\n  ")+"]")
+	// operations that can block, and calls into the package, made while a lock is held (C09, C12: what the LTS ConnMgr
+	// has to account for; lock order)
+	seenB := map[string]bool{}
+	var outB []string
+	for _, b := range blocks {
+		kind, arg := b.op, ""
+		if i := strings.Index(b.op, "("); i >= 0 && strings.HasSuffix(b.op, ")") {
+			kind, arg = b.op[:i], b.op[i+1:len(b.op)-1]
+		}
+		bare := func(l string) string { // the mutex without the mode of an RWMutex
+			if strings.HasPrefix(l, "streamMut:") {
+				return "streamMut"
+			}
+			return l
+		}
+		var ls, ms []string
+		for _, l := range strings.Split(b.locks, ",") {
+			if l != "" {
+				ls = append(ls, leanStr(bare(l)))
+				ms = append(ms, leanStr(l))
+			}
+		}
+		if kind == "lock" {
+			arg = bare(arg)
+		}
+		k := fmt.Sprintf("⟨%s, %s, %s, [%s], [%s]⟩", leanStr(b.fn), leanStr(kind), leanStr(arg), strings.Join(ls, ", "), strings.Join(ms, ", "))
+		if !seenB[k] {
+			seenB[k] = true
+			outB = append(outB, k)
+		}
+	}
+	sort.Strings(outB)
+	o.exprs = append(o.exprs, "structure BlockRow where\n  fn : String\n  kind : String\n  arg : String\n  locks : List String\n  modes : List String\n  deriving Repr, DecidableEq\n\n"+
+		"def blockTable : List BlockRow := [\n  "+strings.Join(outB, ",\n  ")+"]")
 	// atomic flags: every access to atomicFlag.flag goes through sync/atomic
 	atomicOK := true
 	if f := p.files["channel.go"]; f != nil {
